@@ -37,6 +37,11 @@ func newTableSnaps() []*tableSnap {
 		{name: "css/validation.ANGLETORADIANS", get: v(validation.ANGLETORADIANS)},
 		{name: "css/validation.RESOLUTIONTODPPX", get: v(validation.RESOLUTIONTODPPX)},
 		{name: "html/tree.UACounterStyle", get: func() string { return hash(fmt.Sprintf("%v", tree.UACounterStyle)) }},
+		// the parsed process-wide style sheets: selectors and DECLARED values (fmt prints the unexported
+		// matcher / declarations by value; a computed value written back into a declaration changes it)
+		{name: "html/tree.Html5UAStylesheet", get: func() string { return hash(fmt.Sprintf("%v", tree.Html5UAStylesheet)) }},
+		{name: "html/tree.Html5UAFormsStylesheet", get: func() string { return hash(fmt.Sprintf("%v", tree.Html5UAFormsStylesheet)) }},
+		{name: "html/tree.Html5PHStylesheet", get: func() string { return hash(fmt.Sprintf("%v", tree.Html5PHStylesheet)) }},
 	}
 	for _, t := range ts {
 		t.fp = t.get()
